@@ -225,6 +225,10 @@ func runHonest(t *rapid.T, c runCfg, extra func(w *chainsim.World, m *chainsim.M
 	}
 	if c.opts.Transactions && (c.prop == "C15" || simkit.Bool(t, "withtransactions")) {
 		chainsim.NewTxSource(w, time.Duration(simkit.Int(t, "txevery", 800, 4000))*time.Millisecond)
+		if adv != nil {
+			// payload rules of C03: oversized payloads and statically invalid transactions in otherwise valid blocks
+			adv.PayloadAttacks = c.prop == "C03" || simkit.Bool(t, "payloadattacks")
+		}
 	}
 	if c.fuzz > 0 {
 		chainsim.NewFuzzPeer(w, m, c.fuzz)
